@@ -2088,6 +2088,29 @@ func (b *Body) commandOptionsAndFiles(l *Ledger, lab string, fns []*ssa.Function
 		}
 		l.add("R-CMD", lab, key, b.posOf(dc), Violated, "the argument is "+describeValue(arg)+", not the bytes a read call returned: the command decodes something other than the patch file's content", true)
 	}
+	// (xiii) the command leaves the library's package settings alone: what it prints is what the
+	// library produces with its defaults (a copy-size limit of the command's own refuses
+	// patches the library applies)
+	{
+		key := "(xiii) the command stores nothing into the library's package variables"
+		bad := ""
+		for _, fn := range fns {
+			allInstrs(fn, func(i ssa.Instruction) {
+				st, ok := i.(*ssa.Store)
+				if !ok {
+					return
+				}
+				if g, isG := rootOfAddr(st.Addr).(*ssa.Global); isG && g.Pkg == b.Lib {
+					bad = "the command writes the library's " + g.Name() + " at " + b.posOf(st) + ": it no longer applies patches the way the library does by default"
+				}
+			})
+		}
+		if bad != "" {
+			l.add("R-CMD", lab, key, "", Violated, bad, true)
+		} else {
+			l.add("R-CMD", lab, key, "", Discharged, "no store into a package-level variable of the library", true)
+		}
+	}
 	// (xii) no -p value is demanded: without patch files the document passes through
 	if len(fns) > 0 && fns[0].Pkg != nil {
 		key := "(xii) the -p option is not required: with no patch file the document is printed as the library leaves it"
@@ -2658,5 +2681,58 @@ func (b *Body) optionsHandedOn(l *Ledger) {
 		l.add("R-ESCSET", "codec", key, "", Violated, bad, true)
 	} else if n > 0 {
 		l.add("R-ESCSET", "codec", key, "", Discharged, fmt.Sprintf("%d call(s) that pass options on, each the parameter itself or a local copy of it with the switch untouched", n), true)
+	}
+}
+
+// escapersWalkTheirInput (R-ESCSET, codec): compact and HTMLEscape decide byte by byte; neither
+// returns before its loop over the input (a shortcut such as "no <, > or & in here: nothing to
+// escape" forgets the line and paragraph separators, which are escaped whatever else the text
+// holds).
+func (b *Body) escapersWalkTheirInput(l *Ledger) {
+	if b.Codec == nil {
+		return
+	}
+	for _, name := range []string{"compact", "HTMLEscape"} {
+		fn := fnOf(b.Codec, name)
+		if fn == nil || len(fn.Blocks) == 0 {
+			continue
+		}
+		var src *ssa.Parameter
+		for _, p := range fn.Params {
+			if isByteSlice(p.Type()) {
+				src = p
+			}
+		}
+		if src == nil {
+			continue
+		}
+		key := name + ": every return lies behind the walk over the input bytes"
+		var header *ssa.BasicBlock
+		for _, ld := range loopBytes(fn, src) {
+			if ins, ok := ld.(ssa.Instruction); ok {
+				if h := innermostLoopHeader(ins.Block()); h != nil {
+					header = h
+				}
+			}
+		}
+		if header == nil {
+			l.add("R-ESCSET", "codec", key, b.rel(fn.Pos()), Undecided, "no loop over the input found", true)
+			continue
+		}
+		bad := ""
+		ei := errResultIndex(fn)
+		for _, r := range liveReturns(fn) {
+			if ei >= 0 && !isNilConst(retVal(r, ei)) {
+				continue // a failure may come early
+			}
+			if !header.Dominates(r.Block()) {
+				bad = "the return at " + b.posOf(r) + " is reached without entering the loop over the input: what is escaped is decided by a test of the whole text, not byte by byte"
+			}
+		}
+		if bad != "" {
+			l.add("R-ESCSET", "codec", key, b.rel(fn.Pos()), Violated, bad, true)
+		} else {
+			l.add("R-ESCSET", "codec", key, b.rel(fn.Pos()), Discharged, "the loop header dominates every successful return", true)
+		}
 	}
 }
